@@ -662,6 +662,9 @@ class Gen:
             lambda: "data (%s(%s), %s = 1, 3) /1.0, 2.0, 3.0/" % (nm(ARR_NAMES), "i", "i"),
             lambda: "data %s /%s/, %s /%s/" % (nm(INT_NAMES), r.pick(["z'1F'", "b'101'", "o'17'"]), nm(INT_NAMES), r.pick(['Z"ff"', "B'0'"])),
             lambda: "data ((%s(i, j), i = 1, 2), j = 1, 3) /6*0/" % nm(ARR_NAMES),
+            # three and four data-stmt-sets; the comma between sets is optional (R524)
+            lambda: "data %s /1/{,}%s /2/{,}%s /3.0/" % (nm(INT_NAMES), nm(INT_NAMES), nm()),
+            lambda: "data %s /1/{,}%s /2*0/{,}%s /3.0/{,}%s /.true./" % (nm(INT_NAMES), nm(ARR_NAMES), nm(), nm(LOG_NAMES)),
             lambda: "data (%s(i), i = 1, 9, 2) /5*1/, ((%s(i, j), i = 1, 4, 3), j = 2, 6, 2) /6*0.0/" % (nm(ARR_NAMES), nm(ARR_NAMES)),
             lambda: "data %s%%%s, %s(2) /1, 2*%s/" % (nm(OBJ_NAMES), nm(COMP_NAMES), nm(ARR_NAMES), r.pick(["0", "pi", "null()"])),
             lambda: "parameter (%s = %s)" % (nm(), self.expr("num", 1)),
